@@ -173,6 +173,40 @@ def rule_instrlint(ctx, prop: str) -> RuleResult:
                             res.ob(ok)
                             if not ok:
                                 res.add(Finding("INSTRLINT", rel, ins.lineno, ins.name, f"trip:{wn}", f"the body writes {trip} lanes of {wn} but the operand has {a.width}"))
+            # (5) hygiene of C locals declared by the fragment.  The fragment is pasted into the
+            #     caller's scope with the operands' C names substituted: a local declared at brace
+            #     depth 0 collides with a second expansion in the same scope; a local that is in
+            #     scope where an operand is substituted captures a caller variable of that name.
+            frag = ins.c.replace("{{", "\x01").replace("}}", "\x02")
+            depth = 0
+            decl_re = re.compile(r"\b(?:__m\d+[di]?|__mmask\d+|int|float|double|\w+_t)\s+([A-Za-z_]\w*)\s*=")
+            pos = 0
+            locals_seen = []
+            unbraced = []
+            capture = []
+            for line in frag.split("\n"):
+                # brace depth at the start of this line counts literal braces only
+                for mm in decl_re.finditer(line):
+                    before = line[: mm.start()]
+                    d_here = depth + before.count("\x01") - before.count("\x02")
+                    nm = mm.group(1)
+                    locals_seen.append(nm)
+                    if d_here == 0:
+                        unbraced.append(nm)
+                depth += line.count("\x01") - line.count("\x02")
+                if locals_seen and re.search(r"(?<!\{)\{[A-Za-z_]\w*\}(?!\})", line):
+                    for nm in locals_seen:
+                        if nm not in capture:
+                            capture.append(nm)
+            if unbraced:
+                res.ob(False)
+                res.add(Finding("INSTRLINT", rel, ins.lineno, ins.name, "decl-unbraced:" + ",".join(sorted(set(unbraced))),
+                                f"the C template declares {sorted(set(unbraced))} outside a {{ }} block: two uses of {ins.name} in one scope redeclare the variable and the generated C does not compile"))
+            if capture:
+                res.ob(False)
+                res.add(Finding("INSTRLINT", rel, ins.lineno, ins.name, "capture:" + ",".join(sorted(set(capture))),
+                                f"the C template declares the locals {sorted(set(capture))} and substitutes operand names while they are in scope: a caller variable with one of these names "
+                                f"(e.g. a register called `{sorted(set(capture))[0]}`) is captured by the local — `__m256 tmp = _mm256_hadd_ps(tmp, tmp)` reads an uninitialised variable"))
     if n < 60:
         raise AnalysisError(f"INSTRLINT: expected >= 60 x86 instructions, found {n}")
     res.floor = 60
